@@ -12,7 +12,7 @@ import ast
 
 from ..astutil import body_walk, call_name, call_recv, calls_in, kwarg, norm, strip_await
 from ..loader import AnalysisError
-from .common import where
+from .common import parmap, where
 
 PROP = "C14"
 EXPLANATION = (
@@ -229,6 +229,10 @@ def r14_5(ctx):
             shapes = [f"v = self.ctx.internal_date().date()\nreturn v {sym} {arg}"]
         elif val == "date_header":
             shapes = [
+                # (a Date: header that is not a date matches no SENT* key: the parse failure is caught, not propagated)
+                f"msg = self.ctx.msg()\nif 'date' not in msg:\n    return False\ntry:\n    v = parsedate(msg['date']).date()\nexcept (TypeError, ValueError):\n    return False\nreturn v {sym} {arg}",
+                f"msg = self.ctx.msg()\nif 'date' not in msg:\n    return False\ntry:\n    v = parsedate(msg['date']).date()\nexcept ValueError:\n    return False\nreturn v {sym} {arg}",
+                f"msg = self.ctx.msg()\nif 'date' not in msg:\n    return False\ntry:\n    return parsedate(msg['date']).date() {sym} {arg}\nexcept (TypeError, ValueError):\n    return False",
                 f"msg = self.ctx.msg()\nif 'date' not in msg:\n    return False\nv = parsedate(msg['date']).date()\nreturn v {sym} {arg}",
                 f"msg = self.ctx.msg()\nif 'date' in msg:\n    v = parsedate(msg['date']).date()\n    return v {sym} {arg}\nreturn False",
                 # the header lookup behind an Optional-returning helper (folded into the caller by asv/inline.py)
@@ -240,6 +244,39 @@ def r14_5(ctx):
             ctx.ok("R14.5", where(m), f"{op.upper()}: <{val}> {want} <argument>")
         else:
             ctx.bad("R14.5", m.module, m.qual, f"return <{val}> {sym} {arg}", f"{op.upper()} must compare the message's {val} with the argument using {want}: messages on the boundary are wrongly included/excluded (or the value compared is not this message's {val})", m.node.lineno)
+    # ... and a header that cannot be parsed makes the message match no SENT* key, it does not abort the search of the whole
+    # mailbox: parsedate() (email.utils.parsedate_to_datetime) raises ValueError for `Date: next tuesday`
+    n_pd = 0
+    for m in sc.methods.values():
+        if not m.name.startswith("_match_"):
+            continue
+        par_ = parmap(m)
+        for c in calls_in(m.node):
+            if call_name(c) != "parsedate":
+                continue
+            n_pd += 1
+            cur, caught = c, False
+            while cur in par_:
+                up = par_[cur]
+                if isinstance(up, ast.Try) and cur in up.body:
+                    for h in up.handlers:
+                        names = {"Exception"} if h.type is None else {norm(t).split(".")[-1] for t in (h.type.elts if isinstance(h.type, ast.Tuple) else [h.type])}
+                        if names & {"ValueError", "Exception"} and not any(isinstance(x, ast.Raise) for st in h.body for x in ast.walk(st)):
+                            caught = True
+                cur = up
+            if caught:
+                ctx.ok("R14.5", where(m), "an unparsable Date: header is caught in the matcher (the message does not match)")
+            else:
+                ctx.bad("R14.5", m.module, m.qual, norm(c, 60), "parsedate() raises ValueError for a Date: header that is not a date and nothing in the matcher catches it: one such message and every search with this key fails for the whole mailbox (no SEARCH response)", c.lineno)
+    ctx.floor("R14.5", n_pd, 3, "Date: header parses in search matchers")
+    # HEADER <field> <string>: every occurrence of the field is looked at (`msg[field]` / `msg.get(field)` is the first only)
+    mh_ = sc.methods["_match_header"]
+    firsts = [x for x in ast.walk(mh_.node) if (isinstance(x, ast.Subscript) and norm(x.value) == "msg" and not isinstance(x.slice, ast.Slice)) or (isinstance(x, ast.Call) and call_name(x) == "get" and norm(call_recv(x)) == "msg")]
+    alls = [c for c in calls_in(mh_.node) if call_name(c) == "get_all" and norm(call_recv(c)) in ("msg", "self.ctx.msg()")]
+    if alls and not firsts:
+        ctx.ok("R14.5", where(mh_), "HEADER: msg.get_all(<field>) - every occurrence of the field")
+    else:
+        ctx.bad("R14.5", mh_.module, mh_.qual, norm(firsts[0], 50) if firsts else "msg.get_all(header, [])", "HEADER looks at the first occurrence of the field only: a string in the second `Received:` line (any repeated field) is not found although TEXT finds the message", (firsts[0].lineno if firsts else mh_.node.lineno))
     mn = sc.methods["_match_not"]
     if any(isinstance(s, ast.Return) and isinstance(s.value, ast.UnaryOp) and isinstance(s.value.op, ast.Not) and "self.args['search_key'].match(self.ctx)" in norm(s.value) for s in body_walk(mn.node)):
         ctx.ok("R14.5", where(mn), "NOT negates its sub-key")
